@@ -57,6 +57,8 @@ pub fn step_strategy() -> impl Strategy<Value = Step> {
         8 => prop::sample::select(vec![1u32, 32, 128, 256, 512, 1536, 51200]).prop_map(Step::Grid),
         3 => (1u32..4096).prop_map(Step::Grid),
         3 => prop_oneof![(0.0f32..4.0), log_uniform(-4.0, 2.5)].prop_map(Step::Arb),
+        // frames far shorter than a display frame (nanoseconds to microseconds): they still count
+        1 => prop_oneof![Just(1.0e-9f32), Just(1.0e-7f32), Just(f32::EPSILON), log_uniform(-9.5, -4.0)].prop_map(Step::Arb),
         4 => (-2i8..=2).prop_map(|off| Step::ToEnd { off }),
         1 => (-2i8..=2).prop_map(|cycles| Step::ToEndCycles { cycles }),
         1 => (-3i8..=3).prop_map(|ulps| Step::ToEndUlps { ulps }),
